@@ -47,7 +47,12 @@ def dump (s : State) : String :=
   let vupd := sortStrings (s.valUpdates.map fun (k, p) => s!"{k}:{p}")
   let bfees := sortStrings ((s.blockFees).map fun (a, v) => s!"{a}:{v}")
   let cnt := if s.postAspen then toString s.valCount else "pre"
-  s!"bal={joinOrDash bal} nonce={joinOrDash nonce} esc={joinOrDash esc} bridges={joinOrDash bridges} wd={joinOrDash wd} sudo={s.sudo} ibcsudo={s.ibcSudo} relayers={joinOrDash (sortStrings s.relayers)} fees={joinOrDash fees} feeassets={joinOrDash (sortStrings s.feeAssets)} vals={joinOrDash vals} cnt={cnt} vupd={joinOrDash vupd} bfees={joinOrDash bfees} deps={depsDump s.deposits}"
+  let pairs := sortStrings (s.pairs.map fun (k, i) => s!"{k}:{i}")
+  let markets := match s.markets with
+    | none => "none"
+    | some ms => joinOrDash (sortStrings (ms.map fun (e : String × Nat) => s!"{e.1}:{e.2}"))
+  let oracle := s!"pairs={joinOrDash pairs} npairs={s.numPairs} nextid={s.nextPairId} markets={markets}"
+  s!"bal={joinOrDash bal} nonce={joinOrDash nonce} esc={joinOrDash esc} bridges={joinOrDash bridges} wd={joinOrDash wd} sudo={s.sudo} ibcsudo={s.ibcSudo} relayers={joinOrDash (sortStrings s.relayers)} fees={joinOrDash fees} feeassets={joinOrDash (sortStrings s.feeAssets)} vals={joinOrDash vals} cnt={cnt} vupd={joinOrDash vupd} {oracle} bfees={joinOrDash bfees} deps={depsDump s.deposits}"
 
 def evName : Ev → String
   | .fee a n pos => s!"fee:{a}:{n}:{pos}"
@@ -74,7 +79,10 @@ def genesis (legacy : Bool) : State :=
              (.lock, ⟨5, 1005⟩), (.unlock, ⟨6, 1006⟩), (.bridgeTransfer, ⟨7, 1007⟩), (.bridgeSudo, ⟨8, 1008⟩)],
     feeAssets := ["nria", UTIA], knownAssets := ["nria", UTIA, UOSMO],
     vals := if legacy then [("va", 10), ("vb", 10)] else [("va", 10), ("vb", 10), ("vc", 10)],
-    valCount := if legacy then 0 else 3 }
+    valCount := if legacy then 0 else 3,
+    pairs := if legacy then [] else [("BTC/USD", 0), ("ETH/USD", 1)],
+    numPairs := if legacy then 0 else 2, nextPairId := if legacy then 0 else 2,
+    markets := if legacy then none else some [("BTC/USD", 8), ("ETH/USD", 8)] }
 
 /-! ### parsing -/
 
@@ -100,6 +108,12 @@ def parseAction (s : String) : Option Action :=
   | ["val", k, p] => do some (.valUpdate k (← p.toNat?))
   | ["ics20", amt, denom, ch, fa, b, id, blk, ret] =>
     do some (.ics20 (← amt.toNat?) denom (← ch.toNat?) fa (optName b) id (← blk.toNat?) ret)
+  | ["pairs", "add", ps] => some (.pairsAdd (ps.splitOn "+"))
+  | ["pairs", "del", ps] => some (.pairsDel (ps.splitOn "+"))
+  | ["markets", k, ms] => do
+    let l ← (ms.splitOn "+").mapM fun m => match m.splitOn ":" with
+      | [n, d] => do some (n, ← d.toNat?) | _ => none
+    some (.marketsChange (if k = "create" then 0 else if k = "remove" then 1 else 2) l)
   | _ => none
 
 def parseActions (s : String) : Option (List Action) := (s.splitOn ";").mapM parseAction
@@ -129,6 +143,7 @@ structure IDump where
   vupd : List (String × Nat) := []
   bfees : List (String × Nat) := []
   deps : List Deposit := []
+  oracle : String := ""
 
 def splitList (s : String) : List String := if s = "-" then [] else s.splitOn ","
 
@@ -162,7 +177,8 @@ def parseDump (s : String) : Option IDump := do
     | _ => none
   some { bal, nonce, esc, bridges, wd, sudo := field parts "sudo", ibcSudo := field parts "ibcsudo",
          relayers := splitList (field parts "relayers"), fees, feeAssets := splitList (field parts "feeassets"),
-         vals, cnt := field parts "cnt", vupd, bfees, deps }
+         vals, cnt := field parts "cnt", vupd, bfees, deps,
+         oracle := s!"{field parts "pairs"} {field parts "npairs"} {field parts "nextid"} {field parts "markets"}" }
 
 def assetsOf (d : IDump) : List String :=
   ((d.bal.map (·.1.2)) ++ (d.esc.map (·.1.2)) ++ (d.bfees.map (·.1))).eraseDups
@@ -201,7 +217,8 @@ def privChanged (pre post : IDump) : List String :=
   (if sortStrings (pre.vals.map fun (k, p) => s!"{k}:{p}") ≠ sortStrings (post.vals.map fun (k, p) => s!"{k}:{p}")
       || pre.cnt ≠ post.cnt
       || sortStrings (pre.vupd.map fun (k, p) => s!"{k}:{p}") ≠ sortStrings (post.vupd.map fun (k, p) => s!"{k}:{p}")
-   then ["validators"] else [])
+   then ["validators"] else []) ++
+  (if pre.oracle ≠ post.oracle then ["oracle"] else [])
 
 def bridgeAdminChanged (pre post : IDump) : List String :=
   (post.bridges.filterMap fun (n, b) => match pre.bridges.find? (·.1 = n) with
